@@ -554,6 +554,22 @@ def _instantiated_parameter(parameterized, param):
     return param
 
 
+def _current_value(obj, param):
+    """
+    The value attribute access yields for `param` on the instance `obj`:
+    the one held by the instance or else the default of the class-level
+    Parameter (which a per-instance Parameter object does not follow).
+    """
+    values = obj._param__private.values
+    if param.name in values:
+        return values[param.name]
+    if param.owner is obj:
+        cls_param = type(obj).param.objects('existing').get(param.name)
+        if cls_param is not None:
+            return cls_param.default
+    return param.default
+
+
 def instance_descriptor(f):
     # If parameter has an instance Parameter, delegate setting
     def _f(self, obj, val):
@@ -1613,7 +1629,7 @@ class Parameter(_ParameterBase):
                 _old = obj._param__private.values.get(self.name, self.default)
                 obj._param__private.values[self.name] = val
             else:
-                _old = obj._param__private.values.get(self.name, self.default)
+                _old = _current_value(obj, self)
                 if val is not _old:
                     raise TypeError("Constant parameter '%s' cannot be modified" % name)
         else:
@@ -1626,7 +1642,7 @@ class Parameter(_ParameterBase):
                     obj._param__private = _InstancePrivate(
                         explicit_no_refs=type(obj)._param__private.explicit_no_refs
                     )
-                _old = obj._param__private.values.get(name, self.default)
+                _old = _current_value(obj, self)
                 obj._param__private.values[name] = val
         if relink is not None:
             # Only a value that was accepted changes what the parameter follows
